@@ -588,6 +588,12 @@ func init() {
 			tid := IntLit(int64(c.fr.ex.TypeID(c.sig.Recv().Type())))
 			r := c.st.Name("addrstr", App(SBytes, "addr_string", tid, b))
 			c.st.Assume(Not(Eq(r, bnilT)))
+			if name == "AccAddress" {
+				// bech32 round trip: the rendering of a non-empty account address parses back to it
+				c.st.Assume(Implies(App(SBool, ">", App(SInt, "blen", b), IntLit(0)),
+					And(Not(App(SBool, "bech32err", r)), Eq(App(SBytes, "bech32addr", r), b))))
+				c.fr.ex.Assumed["bech32: AccAddressFromBech32(a.String()) == a for a non-empty AccAddress"] = true
+			}
 			return WithGo(r, types.Typ[types.String]), true
 		}
 		libModels["("+sdkPkg+name+").Bytes"] = func(c *libCall) (Val, bool) {
